@@ -12,28 +12,29 @@ import (
 
 // Opts steers the generator of journals that are accepted by construction.
 type Opts struct {
-	Lo, Hi      cal.Day
-	Days        int // distinct active dates
-	Accounts    int // leaf accounts (>= 6)
-	Commodities int
-	TxnsPerDay  int // upper bound
-	MaxBookings int
-	Small       bool // moderate amounts only (valuation checks)
-	NegZero     bool // negative and zero amounts
-	Accruals    bool
-	Perf        bool
-	Prices      bool // spanning tree of prices on the first day + redeclarations
-	PriceGraph  bool // additionally non-tree edges (alternative paths)
-	Lifecycle   bool // closes and re-opens
-	Assertions  bool
-	AssertFresh bool // assertions of 0 on positions that never existed
-	Unicode     bool
-	SelfBook    bool
-	SharedPref  bool // accounts that are prefixes of other accounts
-	MinDepth    int  // minimal account depth (default 2)
-	MaxDepth    int  // maximal account depth (default 4)
+	Lo, Hi       cal.Day
+	Days         int // distinct active dates
+	Accounts     int // leaf accounts (>= 6)
+	Commodities  int
+	TxnsPerDay   int // upper bound
+	MaxBookings  int
+	Small        bool // moderate amounts only (valuation checks)
+	NegZero      bool // negative and zero amounts
+	Accruals     bool
+	Perf         bool
+	Prices       bool // spanning tree of prices on the first day + redeclarations
+	PriceGraph   bool // additionally non-tree edges (alternative paths)
+	Lifecycle    bool // closes and re-opens
+	Assertions   bool
+	AssertFresh  bool // assertions of 0 on positions that never existed
+	Unicode      bool
+	SelfBook     bool
+	SharedPref   bool // accounts that are prefixes of other accounts
+	MinDepth     int  // minimal account depth (default 2)
+	MaxDepth     int  // maximal account depth (default 4)
 	EquityEquity bool // make sure Equity:Equity is among the accounts
 	Depth1       bool // also book directly on a bare type account ("Expenses", "Assets", ...)
+	Twins        bool // same-day, same-description transactions whose bookings are a strict prefix of one another
 }
 
 func DefaultOpts(r *rand.Rand) Opts {
@@ -49,6 +50,7 @@ func DefaultOpts(r *rand.Rand) Opts {
 		Unicode:     r.Intn(3) == 0,
 		SharedPref:  r.Intn(3) == 0,
 		MaxDepth:    4,
+		Twins:       r.Intn(4) == 0,
 	}
 }
 
@@ -475,7 +477,55 @@ func Accepted(r *rand.Rand, o Opts) (*Journal, *Info) {
 			j.Dirs = append(j.Dirs, Dir{Kind: KClose, Date: d, Acc: a.name})
 		}
 	}
+	if o.Twins {
+		AddTwins(r, j, 1+r.Intn(3))
+	}
 	return j, info
+}
+
+// AddTwins gives up to n transactions a twin on the same day with the same
+// description (and targets) whose bookings are the original's plus one more,
+// so that one transaction is a strict prefix of the other; a third
+// transaction reverses the twin, which leaves all end-of-day positions (and
+// with them assertions and closes) unchanged. The twin is placed before or
+// after the original at random.
+func AddTwins(r *rand.Rand, j *Journal, n int) {
+	var idx []int
+	for i, d := range j.Dirs {
+		if d.Kind == KTxn && d.Accrual == nil && len(d.Bookings) > 0 {
+			idx = append(idx, i)
+		}
+	}
+	if len(idx) == 0 {
+		return
+	}
+	chosen := map[int]bool{}
+	for k := 0; k < n; k++ {
+		chosen[idx[r.Intn(len(idx))]] = true
+	}
+	var out []Dir
+	for i, d := range j.Dirs {
+		if !chosen[i] {
+			out = append(out, d)
+			continue
+		}
+		twin := d
+		twin.Bookings = append(append([]Booking{}, d.Bookings...), d.Bookings[r.Intn(len(d.Bookings))])
+		rev := Dir{Kind: KTxn, Date: d.Date, Desc: "reversal of twin"}
+		for _, b := range twin.Bookings {
+			b.Credit, b.Debit = b.Debit, b.Credit
+			rev.Bookings = append(rev.Bookings, b)
+		}
+		switch r.Intn(3) {
+		case 0:
+			out = append(out, twin, d, rev)
+		case 1:
+			out = append(out, d, twin, rev)
+		default:
+			out = append(out, rev, d, twin)
+		}
+	}
+	j.Dirs = out
 }
 
 func indexOf[T comparable](xs []T, x T) int {
